@@ -241,8 +241,9 @@ def check(ctx):
                     ctx.violation("arith:" + txt, txt, exp, a, how)
         elif want[0] == "divzero":
             for txt, r in ((full, r_full), (mini, r_min)):
-                if r[0] != "err" or r[1] != "divzero":
-                    ctx.violation("arith:" + txt, txt, "err divzero", real_answer(r), how)
+                # "reported as an error and never produces a value": which diagnosed error is not the property's business
+                if r[0] != "err" or r[1].startswith("py:") or r[1] == "diverges":
+                    ctx.violation("arith:" + txt, txt, "a diagnosed error (division by zero)", real_answer(r), how)
         else:
             if real_answer(r_min) != ans and not (ans.startswith("ok f:") and nums_agree(ans[3:], real_answer(r_min)[3:])):
                 ctx.violation("arith-paren:" + mini, mini, ans, real_answer(r_min), how)
